@@ -124,7 +124,7 @@ TABLE = {
     "../seeded/C02-4/patch.diff": ("contracts.c02", "_inject_output_value_wire_color", "another gate"),
     "../seeded/C14-1/patch.diff": ("contracts.c14", "visit_FuncDecl", None),
     "../seeded/C07-1/patch.diff": ("contracts.c07", "_materialize_connections", None),
-    "../seeded/C01-4/patch.diff": ("contracts.c07", "_configure_decider", "operation = <"),
+    "../seeded/C01-4/patch_ported.diff": ("contracts.c07", "_configure_decider", "operation = <"),
     "../seeded/C12-1/patch.diff": ("contracts.c12", "_route_connection_with_relays", None),
 }
 # patches refuted by an AST obligation (pyvc.guards): patch -> guard expression
@@ -138,7 +138,7 @@ TABLE.update({
     "c11_int_variable_not_constant.diff": ("contracts.c16b", "lower_decl_stmt", "fresh producer"),
     "c20_declared_constant_not_marked.diff": ("contracts.c16b", "lower_decl_stmt", "fresh producer"),
     "c16_int_signal_decl_wrong_value.diff": ("contracts.c16b", "lower_decl_stmt", "fresh producer"),
-    "../seeded/C02-2/patch.diff": ("contracts.c16b", "lower_decl_stmt", "fresh producer"),
+    "../seeded/C02-2/patch_ported.diff": ("contracts.c16b", "lower_decl_stmt", "fresh producer"),
     "c02_bundle_const_shares_map.diff": ("contracts.c02", "IRBuilder.bundle_const", None),
     "c02_bundle_gate_outputs_each.diff": ("contracts.c02", "IRBuilder.bundle_gating_decider", None),
     "c02_bundle_filter_no_separation.diff": ("contracts.c02", "IRBuilder.bundle_decider", None),
@@ -232,6 +232,11 @@ TABLE.update({
     "c12_expand_source_not_resolved.diff": ("box", "contracts.c12:expand_merges:expand_merges_arg_sets", None),
     "c02_expand_merge_origin_forgotten.diff": ("box", "contracts.c12:expand_merges:expand_merges_arg_sets", None),
     "c06_bundle_wire_conflict_ignored.diff": ("box", "contracts.c12:plan_colors:arg_sets(quick)", None),
+    "c02_gate_bundle_back_on_green.diff": ("box", "contracts.c02:locked_colors:locked_colors_arg_sets", None),
+    "c02_gate_condition_not_locked.diff": ("box", "contracts.c02:locked_colors:locked_colors_arg_sets", None),
+    "c10_cse_merged_ids_not_recorded.diff": ("contracts.c10", "CSEOptimizer.optimize", "anonymous"),
+    "c10_cse_anonymous_keeps_no_name.diff": ("contracts.c10", "CSEOptimizer.optimize", "anonymous"),
+    "c20_merged_names_not_resolved.diff": ("box", "contracts.c20b:analyze_contract:analyze_arg_sets", None),
     "c12_populate_ignores_planned_colour.diff": ("box", "contracts.c12:populate:populate_arg_sets", None),
     "c04_populate_feedback_pair_into_tree.diff": ("box", "contracts.c12:populate:populate_arg_sets", None),
     "c12_populate_groups_by_signal_only.diff": ("box", "contracts.c12:populate:populate_arg_sets", None),
